@@ -10,7 +10,7 @@ git diff -- dlms_cosem > $out/patch.diff
 cp seed_demo.py $out/seed_demo.py; cp seed_meta.json $out/agent_meta.json 2>/dev/null
 t=$(PYTHONPATH=$wt /venv/bin/python -m pytest -q -p no:cacheprovider tests 2>&1 | tail -1)
 PYTHONPATH=$wt timeout 300 /venv/bin/python seed_demo.py >/dev/null 2>&1; with=$?
-git stash -q; PYTHONPATH=$wt timeout 300 /venv/bin/python seed_demo.py >/dev/null 2>&1; without=$?; git stash pop -q
+git apply -R $out/patch.diff; PYTHONPATH=$wt timeout 300 /venv/bin/python seed_demo.py >/dev/null 2>&1; without=$?; git apply $out/patch.diff
 echo "tests: $t | demo with change rc=$with | without rc=$without"
 cd /repo
 if git apply --check $out/patch.diff 2>/dev/null; then git apply $out/patch.diff
